@@ -50,7 +50,7 @@ def decode(d):
 
 
 def parts(tier):
-    n = 5000 if tier == "quick" else 30000
+    n = 12000 if tier == "quick" else 30000
     return [core.Part("arcs", "sampled", lambda: gen.cases(decode, 96), budget=n)]
 
 
